@@ -141,6 +141,9 @@ func Gen(r *rand.Rand, cfg Cfg) *ast.Grammar {
 func genOnce(r *rand.Rand, cfg Cfg, try int) *ast.Grammar {
 	s := &genState{r: r, cfg: cfg}
 	n := 1 + r.Intn(cfg.MaxRules)
+	if m := 1 + r.Intn(cfg.MaxRules); m < n && r.Intn(4) > 0 {
+		n = m // skew towards few rules: the front-end is slow (~15 us per byte)
+	}
 	if try > 20 {
 		n = 1 + r.Intn(2)
 	}
@@ -332,6 +335,8 @@ func (s *genState) allowed(k int, c ctx) bool {
 var kindWeight = [nKinds]int{kChoice: 10, kSeq: 16, kRecovery: 4, kAction: 8, kLabeled: 9, kAnd: 4, kNot: 4, kOpt: 6, kStar: 6,
 	kPlus: 6, kThrow: 3, kRef: 14, kState: 3, kAndCode: 3, kNotCode: 3, kLit: 14, kClass: 10, kAny: 4}
 
+var depthFactor = []int{100, 90, 60, 40, 30, 25}
+
 // refTargets lists the rule indices that may be referenced in context c.
 func (s *genState) refTargets(c ctx) []int {
 	var out []int
@@ -351,7 +356,7 @@ func (s *genState) refTargets(c ctx) []int {
 
 func (s *genState) expr(c ctx) ast.Expression {
 	s.nodes++
-	if s.nodes > 40 {
+	if s.nodes > 14 {
 		c.depth = 0
 	}
 	total := 0
@@ -359,6 +364,11 @@ func (s *genState) expr(c ctx) ast.Expression {
 	for k := 0; k < nKinds; k++ {
 		if s.allowed(k, c) {
 			w[k] = kindWeight[k]
+			if k <= kPlus {
+				// composite kinds get rarer with depth: every level of
+				// parentheses doubles the parse time of the front-end
+				w[k] = w[k] * depthFactor[min(s.cfg.MaxDepth-c.depth, len(depthFactor)-1)] / 100
+			}
 			if c.top && (k == kChoice || k == kSeq || k == kAction) {
 				w[k] *= 3
 			}
